@@ -155,7 +155,7 @@ def run(case):
             return bad
     return None
 
-case = [('create', {'seconds': 1}), ('create', {'hours': 3}), ('create', {'days': 3}), ('advance', 604800), ('access', 0, 'keep'), ('hold', 3), ('hold', 5), ('create', {'seconds': 90}), ('metrics', False), ('advance', 30), ('hold', 0), ('advance', 3601), ('advance', 604800), ('access', 4, 'step')]
+case = [('create', {'weeks': 3}), ('create', {'hours': 3}), ('create', {'hours': 1, 'minutes': 5}), ('advance', 1300000), ('advance', 3601), ('advance', 1), ('advance', 5e-07), ('create', {'seconds': 1}), ('create', {'seconds': 2}), ('advance', 604800), ('access', 0, 'keep'), ('advance', 61)]
 bad = run(case)
 print("timeline:", case)
 print("FAIL: " + bad if bad else "PASS")
